@@ -297,7 +297,7 @@ def gen_cfg(rng: random.Random, big_ok: bool):
     levels = valid_levels(rng.choice([[2], [2, 4], [2, 4, 8], [3], [2, 8], [4]]), h, w) if ovr_mode == "levels" else None
     return dict(
         layout=layout, nb=nb, h=h, w=w, dtype=dt, attrs_nodata=attrs_nd, kw_nodata=kw_nd,
-        entry=entry, dest=dest, ovr_mode=ovr_mode, overview_levels=levels, nlayers=rng.randint(1, 3),
+        entry=entry, dest=dest, ovr_mode=ovr_mode, overview_levels=levels, nlayers=rng.randint(0, 3),
         overwrite_new=rng.random() < 0.5,
         blocksize=rng.choice([None, None, 16, 32, 64, 100, 128, 17, 250, 256, 512, 1024]),
         ovr_blocksize=rng.choice([None, None, None, 64, 128]),
@@ -1003,6 +1003,13 @@ def run(R: Run):
                dest="file_exists_overwrite", seed=14),
             mk(h=256, w=200, dtype="uint16", attrs_nodata=0, blocksize=64, entry="write_cog_layers", ovr_mode="supplied",
                dest="file_new", seed=15),
+        ]
+        # supplied-but-EMPTY overviews (overviews=[] / ()) on images past the 512 px threshold with overview_levels left alone:
+        # the file must contain exactly the supplied levels — none — not the default computed pyramid
+        fixed += [
+            mk(h=600, w=513, dtype="uint8", ovr_mode="supplied", nlayers=0, container="list", blocksize=None, entry="write_cog", dest="file_new", seed=16),
+            mk(h=512, w=640, dtype="int16", ovr_mode="supplied", nlayers=0, container="tuple", blocksize=256, entry="to_cog", attrs_nodata=0, seed=17),
+            mk(layout="YXS", nb=3, h=520, w=512, dtype="uint8", ovr_mode="supplied", nlayers=0, container="iter", blocksize=None, entry="acc_to_cog", seed=18),
         ]
         for i, cfg in enumerate(fixed):
             run_case(R, cfg, workdir, f"k{i}")
